@@ -82,7 +82,7 @@ class WithEq:
         return hash(("WithEq", self.v))
 
     def __repr__(self):
-        return f"WithEq({self.v!r})"
+        return "WithEq(...)"  # deliberately silent about the value: a key (or file name) derived from repr() must show up as a false hit
 
 
 class NoEq:
@@ -522,7 +522,8 @@ def memo_values():
              Mp("dict", (_a, T(_1))), Mp("dict", (_0, _1), (_1, _0)), Mp("dict", (_1, _0), (_0, _1)),
              Se(("1", "0"), "int64", ["1", "0"]), Se(("0", "1"), "float64"), Se(("0", "1"), "int64", None, "a"),
              Df([("a", ("0", "1"), "int64")], ["'a'", "''"]), Df([("b", ("0", "1"), "int64")]),
-             Arr("int64", (1, 2), _0, _1), Dq(1, _0, _1), Dq(1, _1)]
+             Arr("int64", (1, 2), _0, _1), Dq(1, _0, _1), Dq(1, _1),
+             ["WithEq", _a], ["WithEq", _0], ["NoEq", _a]]  # user objects that differ only in a value their repr() does not show
     out, seen = [], set()
     for d in P1 + extra:
         if dkey(d) not in seen:
